@@ -1203,7 +1203,10 @@ def part_c(chk, quick):
             for nd, h5, cm, ov in cppo:
                 for pn in pyo:
                     for via in (False, True):
-                        if quick and mname.startswith(("map-key-", "struct-")) and not (ts == all_t and (nd, h5, cm, ov, pn, via) == (True, True, True, True, True, False)):
+                        single = mname.startswith(("map-key-", "struct-"))     # models about one construct, not about options
+                        if single and quick and not (ts == all_t and (nd, h5, cm, ov, pn, via) == (True, True, True, True, True, False)):
+                            continue
+                        if single and not quick and (via or len(ts) not in (1, 4) or (nd, h5, cm, ov) not in ((True, True, True, True), (False, False, False, True), (None,) * 4) or pn is False):
                             continue
                         if quick:
                             full = ts == all_t and mname == "baseline"
